@@ -8,6 +8,8 @@ import subprocess
 
 from harness import tlc
 
+REPO = os.environ.get("VERIF_REPO", "/repo")
+
 QUICK = ["tests/test_message.py", "tests/test_dependencies.py", "tests/test_consumer.py::test_another_topic_is_not_consumed",
          "tests/test_queue.py", "tests/test_job.py"]
 THOROUGH = ["tests/test_message.py", "tests/test_dependencies.py", "tests/test_consumer.py", "tests/test_queue.py", "tests/test_job.py",
@@ -17,10 +19,10 @@ THOROUGH = ["tests/test_message.py", "tests/test_dependencies.py", "tests/test_c
 def run_part(ck, tier: str) -> None:
     d = tlc.scratch("suite")
     out = d / "traces.json"
-    env = dict(os.environ, PYTHONPATH="/verif:/repo", TZ="UTC", VERIF_TRACE_OUT=str(out))
+    env = dict(os.environ, PYTHONPATH="/verif:" + REPO, TZ="UTC", VERIF_TRACE_OUT=str(out))
     sel = QUICK if tier == "quick" else THOROUGH
     p = subprocess.run(["/venv/bin/python", "-m", "pytest", "-q", "-p", "no:cacheprovider", "-p", "harness.pytest_plugin", "--timeout=900", *sel],
-                       cwd="/repo", env=env, capture_output=True, text=True, timeout=1500)
+                       cwd=REPO, env=env, capture_output=True, text=True, timeout=1500)
     tail = (p.stdout.strip().splitlines() or [""])[-1]
     ck.notes["suite_run"] = {"selection": sel, "pytest": tail}
     if not out.exists():
